@@ -36,7 +36,7 @@ var c06Forms = []refForm{
 }
 
 // positions: each is a hole in the host document
-var c06Positions = []string{"a-para", "a-li", "a-caption", "a-cell", "img-src", "img-srcset1", "img-srcset2", "img-lazy", "source-srcset", "video-src", "video-poster", "vsource-src", "track-src", "img-in-table", "figure-img", "picture-img"}
+var c06Positions = []string{"a-para", "a-li", "a-caption", "a-cell", "img-src", "img-srcset1", "img-srcset2", "img-lazy", "source-srcset", "video-src", "video-poster", "vsource-src", "track-src", "img-in-table", "figure-img", "picture-img", "a-block-h2", "a-inline-block", "video-only-poster"}
 
 func c06Doc(assign map[int]int) string {
 	t := &ora.Tok{}
@@ -61,6 +61,9 @@ func c06Doc(assign map[int]int) string {
 	sb.WriteString("<picture><source srcset=\"" + u("source-srcset") + " 1x\"><img src=\"" + u("picture-img") + "\" width=\"400\" height=\"300\"></picture>" + pc())
 	sb.WriteString("<figure><img src=\"" + u("figure-img") + "\" width=\"400\" height=\"300\"><figcaption>" + t.W(3) + " <a href=\"" + u("a-caption") + "\">" + t.W(2) + "</a></figcaption></figure>" + pc())
 	sb.WriteString("<video src=\"" + u("video-src") + "\" poster=\"" + u("video-poster") + "\" width=\"400\" height=\"300\"><source src=\"" + u("vsource-src") + "\"><track src=\"" + u("track-src") + "\"></video>" + pc())
+	sb.WriteString("<h2><a style=\"display:block\" href=\"" + u("a-block-h2") + "\">" + t.W(4) + "</a></h2>" + pc())
+	sb.WriteString("<div><a style=\"display: inline-block\" href=\"" + u("a-inline-block") + "\">" + t.W(18) + "</a></div>" + pc())
+	sb.WriteString("<video poster=\"" + u("video-only-poster") + "\" width=\"400\" height=\"300\"></video>" + pc())
 	sb.WriteString("<table><tr><th>" + t.W(1) + "</th><th>" + t.W(1) + "</th></tr><tr><td>" + t.W(1) + " <img src=\"" + u("img-in-table") + "\"></td><td><a href=\"" + u("a-cell") + "\">" + t.W(1) + "</a></td></tr><tr><td>" + t.W(1) + "</td><td>" + t.W(1) + "</td></tr></table>" + pc())
 	sb.WriteString("</div></body></html>")
 	return sb.String()
@@ -242,7 +245,7 @@ func init() {
 	eng.Register(&eng.Prop{
 		ID:        "C06",
 		DesignRef: "§5 C06",
-		Rule: "host document with 16 URL-carrying positions (a[href] in paragraph/list item/caption/table cell; img src, two srcset candidates, lazy data-src, picture source srcset + img, figure img, video src/poster, video source/track src, img in table), each defaulting to an absolute URL with a unique marker; " +
+		Rule: "host document with 19 URL-carrying positions (block-styled anchors that become the root of their text block, a video with only a poster, a[href] in paragraph/list item/caption/table cell; img src, two srcset candidates, lazy data-src, picture source srcset + img, figure img, video src/poster, video source/track src, img in table), each defaulting to an absolute URL with a unique marker; " +
 			"every assignment of <= 2 (quick) / <= 3 (thorough) positions to one of 13 non-default reference forms (path-relative, ./, ../, root-relative, scheme-relative, query-only, fragment, data:, javascript:, https absolute, unparseable, relative with query, empty) x 4 page URLs. " +
 			"Oracle: each URL attribute/srcset candidate of result.Node outside embed placeholders and each ContentImages entry, traced to its original by marker, equals the statement's rule (pass-through or RFC 3986 resolution against the page URL) and is absolute when resolved. Non-trivial = >= 1 relative reference reached the output.",
 		Enumerate: c06Enumerate,
